@@ -477,6 +477,12 @@ def run_shard(prop, tier, seed, shard, nshards, replay, budget):
     import warnings
 
     warnings.filterwarnings("ignore")
+    try:
+        import thejoker.logging as _tl
+
+        _tl.logger.setLevel("ERROR")
+    except Exception:
+        pass
     ctx = Ctx(prop, tier, seed, shard, nshards, replay, budget)
     ctx.rule = getattr(mod, "RULE", "")
     ctx.level = getattr(mod, "LEVEL", "exploration")
